@@ -79,9 +79,18 @@ func NewCollection(opts ...Options) *Collection {
 	}
 
 	// Create an expiration column and start the cleanup goroutine
-	store.CreateColumn(expireColumn, ForInt64())
+	store.CreateColumn(expireColumn, ForInt64(WithMerge(extendDeadline)))
 	go store.vacuum(ctx, options.Vacuum)
 	return store
+}
+
+// extendDeadline merges an extension into an expiration deadline. A row which never
+// expires (zero) has no deadline to move and must not end up with one in the past.
+func extendDeadline(deadline, delta int64) int64 {
+	if deadline == 0 {
+		return 0
+	}
+	return deadline + delta
 }
 
 // next finds the next free index in the collection, atomically.
